@@ -18,9 +18,7 @@ schema('TaskActionTimer', 'cylc.flow.task_action_timer:TaskActionTimer', fields=
 schema('TaskProxy', 'cylc.flow.task_proxy:TaskProxy', fields={
     'try_timers': 'dict[str,TaskActionTimer]', 'removed': 'bool'})
 schema('TaskEventsManager', 'cylc.flow.task_events_mgr:TaskEventsManager', fields={
-    'workflow_db_mgr': 'WorkflowDatabaseManager', 'data_store_mgr': 'DataStoreMgr',
-    'EVENT_FAILED': 'str', 'EVENT_RETRY': 'str', 'JOB_FAILED': 'str', 'EVENT_SUBMIT_FAILED': 'str',
-    'EVENT_SUBMIT_RETRY': 'str', 'JOB_SUBMIT_FAIL_FLAG': 'int'})
+    'workflow_db_mgr': 'WorkflowDatabaseManager', 'data_store_mgr': 'DataStoreMgr'})
 
 contract(A + 'next',
          sorts={'self': 'TaskActionTimer', 'no_exhaust': 'bool', 'result': 'opt[float]'},
@@ -74,6 +72,14 @@ def completed(t, m):
 
 
 @spec
+def outputs_monotone(t):
+    """same outputs registered; nothing that was complete is incomplete afterwards"""
+    return forall(lambda m: (m in t.state.outputs._completed) == old(m in t.state.outputs._completed)
+                  and implies(old(m in t.state.outputs._completed and t.state.outputs._completed[m]),
+                              t.state.outputs._completed[m]), m="str")
+
+
+@spec
 def retry_left(t, key):
     return key in t.try_timers and t.try_timers[key].num < len(t.try_timers[key].delays)
 
@@ -97,6 +103,9 @@ contract(E + '_process_message_failed',
                  'old(itask.try_timers["execution-retry"].num) + 1)',
              'definitive-sets-failed':
                  'implies(result and not forced, itask.state.status == "failed")',
+             'outputs-monotone': 'outputs_monotone(itask)',
+             'back-to-waiting-only-as-a-retry':
+                 'implies(itask.state.status == "waiting" and old(itask.state.status) != "waiting", not result)',
          },
          modifies=['all:TaskActionTimer.delay', 'all:TaskActionTimer.timeout', 'all:TaskActionTimer.num',
                    'itask.state.status', 'itask.state.is_held', 'itask.state.is_queued',
@@ -119,6 +128,7 @@ contract(E + '_process_message_submit_failed',
                  'implies(not result, itask.try_timers["submission-retry"].num == '
                  'old(itask.try_timers["submission-retry"].num) + 1)',
              'definitive-sets-submit-failed': 'implies(result, itask.state.status == "submit-failed")',
+             'outputs-monotone': 'outputs_monotone(itask)',
          },
          modifies=['all:TaskActionTimer.delay', 'all:TaskActionTimer.timeout', 'all:TaskActionTimer.num',
                    'itask.state.status', 'itask.state.is_held', 'itask.state.is_queued',
